@@ -30,6 +30,8 @@ Counter f_state("fault.stream.format_state_left_over");
 Counter p_repeat("probe.usage_called_again_on_same_parser");
 Counter p_moved("probe.usage_of_a_moved_parser");
 Counter p_late("probe.usage_after_late_declaration");
+Counter p_redeclare("probe.name_declared_again");
+Counter p_redeclare_refused("probe.name_declared_again_refused");
 
 // ---------------------------------------------------------------- simulated stream device
 class SimStreambuf : public std::streambuf
@@ -345,7 +347,27 @@ struct Exec
                     if (e.name == o.name)
                         dup = true;
                 if (dup)
+                {
+                    // a repeated declaration: refused as a developer error (other kind / other
+                    // group) or answered with the identical object; either way the usage text
+                    // keeps listing the name once, as first declared
+                    p_redeclare++;
+                    try
+                    {
+                        no::group& g2 = o.group == 0 ? p->group() : p->group(d.groups[o.group].name);
+                        if (o.kind == 0)
+                            g2.option(o.name, f[1]);
+                        else if (o.kind == 1)
+                            g2.multi_option(o.name, f[1]);
+                        else
+                            g2.toggle(o.name, f[1]);
+                    }
+                    catch (std::exception&)
+                    {
+                        p_redeclare_refused++;
+                    }
                     continue;
+                }
                 o.desc = f[1];
                 o.metavar = f[2];
                 for (char& c : o.metavar)
@@ -996,6 +1018,14 @@ public:
                 name += static_cast<char>(rng.chance(1, 7) ? '-' : 'a' + rng.below(26));
             if (name.back() == '-')
                 name += 'x';
+            if (i > 0 && rng.chance(1, 6))
+            {
+                // the name of an earlier declaration again, with freshly drawn kind and group
+                size_t back = 1 + rng.below(static_cast<uint64_t>(i));
+                const Op& prev = p.ops[p.ops.size() - back];
+                if (prev.kind == K_DECLARE)
+                    name = prev.s.substr(0, prev.s.find('|'));
+            }
             std::string mv = rng.chance(1, 3) ? word(rng, 12) : std::string();
             for (auto& c : mv)
                 c = static_cast<char>(toupper(c));
